@@ -58,3 +58,13 @@ reg("C05", "proof", ["contracts.deriv:GeneralKernel", "contracts.deriv:DirectKer
      "gbasis.evals._deriv._first_derivative", "gbasis.evals._deriv._second_derivative",
      "gbasis.evals.eval_deriv.EvalDeriv.construct_array_contraction", "gbasis.evals.eval.Eval.construct_array_contraction",
      "gbasis.base_one.BaseOneIndex.construct_array_*"])
+
+reg("C06", "proof", ["contracts.density:DensityFromOrbs", "contracts.density:DensityThreshold", "contracts.density:ReducedDM",
+    "contracts.density:DerivDensity", "contracts.density:GradLapHess", "contracts.density:KineticDensity"],
+    ["gbasis.evals.density.evaluate_density_using_evaluated_orbs", "gbasis.evals.density.evaluate_density",
+     "gbasis.evals.density.evaluate_deriv_reduced_density_matrix", "gbasis.evals.density.evaluate_deriv_density",
+     "gbasis.evals.density.evaluate_density_gradient", "gbasis.evals.density.evaluate_density_laplacian",
+     "gbasis.evals.density.evaluate_density_hessian", "gbasis.evals.density.evaluate_posdef_kinetic_energy_density",
+     "gbasis.evals.density.evaluate_general_kinetic_energy_density"],
+    extra_assumptions=["evaluate_basis / evaluate_deriv_basis replaced by their contracts (opaque orbital atoms; C05 and C09 are their proofs)",
+                       "branch obligations and path feasibility discharged by z3 4.x/5.x (QF_NRA), 20 s budget per query; unknown = undecided"])
